@@ -2,33 +2,35 @@
    Statements only; proofs are in Proofs/AuthorityProofs.v.  Every theorem is closed by `exact`. *)
 From RipV Require Import Base.Prelude Model.Authority Proofs.AuthorityProofs.
 
-(* S13 — the faithful model violates mutual exclusion under SOME schedule: a stale lock of a dead pid, two server
-   loops, both pass the re-read before either renames *)
+(* S13 — the faithful model violates mutual exclusion under SOME schedule: a stale lock of a dead pid
+   (s13_init = init (LRec 900) MAbsent [fresh 1 DServer; fresh 2 DServer]), two server loops, both pass the re-read
+   before either renames *)
 Theorem c18_mutex_all_schedules_refuted :
-  exists (sched : list event),
-    let s := run true (init (LRec 900) MAbsent [fresh 1 DServer; fresh 2 DServer]) sched in
-    holders s = [1; 2] /\ s_took_lock s = true.
-Proof. exact (ex_intro _ s13_sched s13_two_holders). Qed.
+  exists sched : list event,
+    holders (run true s13_init sched) = [1; 2] /\ s_took_lock (run true s13_init sched) = true.
+Proof. exact mutex_all_schedules_refuted. Qed.
 Print Assumptions c18_mutex_all_schedules_refuted.
 
+(* S13b — half-written lock of a dead creator (s13b_init = init (LHalf 900) MAbsent [two servers]) *)
 Theorem c18_corrupt_cleanup_race_refuted :
-  exists (sched : list event),
-    let s := run true (init (LHalf 900) MAbsent [fresh 1 DServer; fresh 2 DServer]) sched in
-    holders s = [1; 2] /\ s_took_lock s = true.
-Proof. exact (ex_intro _ s13b_sched s13b_two_holders). Qed.
+  exists sched : list event,
+    holders (run true s13b_init sched) = [1; 2] /\ s_took_lock (run true s13b_init sched) = true.
+Proof. exact corrupt_cleanup_race_refuted. Qed.
 Print Assumptions c18_corrupt_cleanup_race_refuted.
 
+(* S13c — s13c_init = init (LRec 900) (MRec 900) [two servers]: the meta.json of the new, live authority is renamed *)
 Theorem c18_meta_of_live_authority_taken_refuted :
-  exists (sched : list event),
-    let s := run true (init (LRec 900) (MRec 900) [fresh 1 DServer; fresh 2 DServer]) sched in
-    holders s = [2] /\ s_lock s = LRec 2 /\ s_meta s = MAbsent /\ s_took_meta s = true /\ s_took_lock s = false.
-Proof. exact (ex_intro _ s13c_sched s13c_meta_taken). Qed.
+  exists sched : list event,
+    holders (run true s13c_init sched) = [2] /\ s_lock (run true s13c_init sched) = LRec 2
+    /\ s_meta (run true s13c_init sched) = MAbsent
+    /\ s_took_meta (run true s13c_init sched) = true /\ s_took_lock (run true s13c_init sched) = false.
+Proof. exact meta_of_live_authority_taken_refuted. Qed.
 Print Assumptions c18_meta_of_live_authority_taken_refuted.
 
-(* the half-written lock of a live, slow acquirer is protected only by the 1 s timer *)
+(* the half-written lock of a live, slow acquirer is protected only by the 1 s timer
+   (empty_init = init LAbsent MAbsent [two servers]; run false = timer answers fully adversarial) *)
 Theorem c18_corrupt_cleanup_needs_grace :
-  exists (sched : list event),
-    holders (run false (init LAbsent MAbsent [fresh 1 DServer; fresh 2 DServer]) sched) = [1; 2]
-    /\ holders (run true (init LAbsent MAbsent [fresh 1 DServer; fresh 2 DServer]) sched) = [1].
-Proof. exact (ex_intro _ grace_sched grace_needed). Qed.
+  exists sched : list event,
+    holders (run false empty_init sched) = [1; 2] /\ holders (run true empty_init sched) = [1].
+Proof. exact corrupt_cleanup_needs_grace. Qed.
 Print Assumptions c18_corrupt_cleanup_needs_grace.
